@@ -110,6 +110,24 @@ func init() {
 		st.reached[argString(args[0])] = true
 		return nil
 	}
+	e[v("ReachIf")] = func(fr *frame, args []value) value {
+		st := fr.i.needState("reach")
+		lab := argString(args[0])
+		if st.reached[lab] {
+			return nil
+		}
+		switch c := args[1].(type) {
+		case bool:
+			if c {
+				st.reached[lab] = true
+			}
+		case sym:
+			if r, _ := st.sol.check(c.t, nil); r == resSat {
+				st.reached[lab] = true
+			}
+		}
+		return nil
+	}
 	e[v("Try")] = func(fr *frame, args []value) value {
 		return fr.i.try(fr, args[0])
 	}
@@ -119,6 +137,46 @@ func init() {
 	e[v("MapOrder")] = func(fr *frame, args []value) value {
 		fr.i.needState("MapOrder").mapPerm = args[0].(bool)
 		return nil
+	}
+	// non-forking boolean combinators (a Go && / || on symbolic operands forks the path)
+	e[v("And")] = func(fr *frame, args []value) value {
+		var ts []string
+		for _, a := range args[0].([]value) {
+			if b, ok := a.(bool); ok {
+				if !b {
+					return false
+				}
+				continue
+			}
+			ts = append(ts, termOf(a))
+		}
+		return boolV(mkAnd(ts...))
+	}
+	e[v("Or")] = func(fr *frame, args []value) value {
+		var ts []string
+		for _, a := range args[0].([]value) {
+			if b, ok := a.(bool); ok {
+				if b {
+					return true
+				}
+				continue
+			}
+			ts = append(ts, termOf(a))
+		}
+		return boolV(mkOr(ts...))
+	}
+	e[v("Implies")] = func(fr *frame, args []value) value {
+		a, b := args[0], args[1]
+		if ab, ok := a.(bool); ok {
+			if !ab {
+				return true
+			}
+			return b
+		}
+		if bb, ok := b.(bool); ok && bb {
+			return true
+		}
+		return boolV(mkOr(mkNot(termOf(a)), termOf(b)))
 	}
 	e[v("Symbolic")] = func(fr *frame, args []value) value { return true }
 	e[v("Note")] = func(fr *frame, args []value) value {
@@ -376,6 +434,33 @@ func init() {
 		}
 		return boolV(mkAnd(acc...))
 	}
+	e["cosmossdk.io/store/types.PrefixEndBytes"] = func(fr *frame, args []value) value {
+		p, _ := args[0].([]value)
+		if len(p) == 0 {
+			return []value(nil)
+		}
+		if raw, ok := bytesAllConcrete(p); ok {
+			end := append([]byte(nil), raw...)
+			for {
+				if end[len(end)-1] != 255 {
+					end[len(end)-1]++
+					break
+				}
+				end = end[:len(end)-1]
+				if len(end) == 0 {
+					return []value(nil)
+				}
+			}
+			out := make([]value, len(end))
+			for k := range end {
+				out[k] = end[k]
+			}
+			return out
+		}
+		out := make([]value, 0, len(p)+1)
+		out = append(out, p...)
+		return append(out, prefixEndMark{})
+	}
 	e["bytes.Compare"] = func(fr *frame, args []value) value {
 		return bytesCompare(fr, args[0].([]value), args[1].([]value))
 	}
@@ -592,7 +677,45 @@ func containsSym(v value, depth int) bool {
 	return false
 }
 
+// prefixEndMark terminates the value returned by storetypes.PrefixEndBytes for a prefix with symbolic bytes:
+// [p0..pn-1, MARK] stands for "the smallest byte string greater than every string with prefix p".
+type prefixEndMark struct{}
+
+func hasPrefixEndMark(a []value) bool {
+	if len(a) == 0 {
+		return false
+	}
+	_, ok := a[len(a)-1].(prefixEndMark)
+	return ok
+}
+
 func bytesCompare(fr *frame, a, b []value) value {
+	if hasPrefixEndMark(b) {
+		// k < PrefixEnd(p)  <=>  cmp(k[:min(len k, len p)], p) <= 0
+		p := b[:len(b)-1]
+		k := a
+		if hasPrefixEndMark(a) {
+			panic(engineAbort{"comparison of two symbolic prefix-end bounds"})
+		}
+		if len(k) > len(p) {
+			k = k[:len(p)]
+		}
+		c := bytesCompare(fr, k, p)
+		if ci, ok := c.(int); ok {
+			if ci <= 0 {
+				return -1
+			}
+			return 1
+		}
+		return sym{"(ite (<= " + termOf(c) + " 0) (- 1) 1)", types.Int}
+	}
+	if hasPrefixEndMark(a) {
+		c := bytesCompare(fr, b, a)
+		if ci, ok := c.(int); ok {
+			return -ci
+		}
+		return sym{"(- " + termOf(c) + ")", types.Int}
+	}
 	n := len(a)
 	if len(b) < n {
 		n = len(b)
@@ -603,30 +726,35 @@ func bytesCompare(fr *frame, a, b []value) value {
 	} else if len(a) > len(b) {
 		tail = 1
 	}
-	allc := true
+	// walk from the front; stop at the first position where both bytes are concrete and differ
+	type pair struct{ x, y string }
+	var pairs []pair
 	for k := 0; k < n; k++ {
-		if isSym(a[k]) || isSym(b[k]) {
-			allc = false
-		}
-	}
-	if allc {
-		for k := 0; k < n; k++ {
-			x, y := a[k].(uint8), b[k].(uint8)
-			if x < y {
-				return -1
+		xa, xok := a[k].(uint8)
+		yb, yok := b[k].(uint8)
+		if xok && yok {
+			if xa == yb {
+				continue
 			}
-			if x > y {
-				return 1
+			if xa < yb {
+				tail = -1
+			} else {
+				tail = 1
 			}
+			break
 		}
-		return tail
-	}
-	t := intLit(int64(tail))
-	for k := n - 1; k >= 0; k-- {
 		x, y := termOf(a[k]), termOf(b[k])
 		if x == y {
 			continue
 		}
+		pairs = append(pairs, pair{x, y})
+	}
+	if len(pairs) == 0 {
+		return tail
+	}
+	t := intLit(int64(tail))
+	for k := len(pairs) - 1; k >= 0; k-- {
+		x, y := pairs[k].x, pairs[k].y
 		t = "(ite (< " + x + " " + y + ") (- 1) (ite (> " + x + " " + y + ") 1 " + t + "))"
 	}
 	return sym{t, types.Int}
